@@ -19,9 +19,13 @@ import (
 	"time"
 )
 
-const (
-	VerifDir = "/verif"
-)
+// VerifDir is where known_findings.json, evidence/ and replays/ live.
+var VerifDir = func() string {
+	if d := os.Getenv("VERIF_DIR"); d != "" {
+		return d
+	}
+	return "/verif"
+}()
 
 // ---------------------------------------------------------------- worker
 
